@@ -39,10 +39,10 @@ def check(index, ctx):
 
 # ------------------------------------------------------------------------------------------------ PCGrad
 def pcgrad(index, ctx):
-    cls = index.get_class("torchjd.aggregation.pcgrad._PCGradWeighting")
-    r = cls.lookup("forward")
+    cls = _agg.weighting_of(index, "PCGrad")
+    r = cls.lookup("forward") if cls is not None else None
     if r is None:
-        raise AnalysisError("anchor vanished: _PCGradWeighting.forward")
+        raise AnalysisError("anchor vanished: the forward of the weighting class PCGrad is built on")
     fi = r[1]
     ctx.analysed(fi.qualname)
     # read in canonical shape: helpers of the class/module expanded in place, walrus tests split, reduce(add, generator) as a loop
@@ -339,6 +339,9 @@ def cagrad(index, ctx, A, by_class):
     if "CAGrad" not in by_class:
         raise AnalysisError("anchor vanished: CAGrad")
     cls = by_class["CAGrad"][0].cls
+    W_CAGRAD = _agg.weighting_of(index, "CAGrad")
+    if W_CAGRAD is None:
+        raise AnalysisError("anchor vanished: the weighting class CAGrad is built on")
     ctor_rule(ctx, "R4", "CAGrad", A, cls, {"c >= 0": Poly.sym("c")})
     minv = Poly.sym("m").inverse()
     seen_step = seen_zero = False
@@ -348,12 +351,12 @@ def cagrad(index, ctx, A, by_class):
             if r.kind != "return" or not isinstance(r.value, TV):
                 continue
             # the cone programme sees a full factor of the (normalised) Gramian: nothing selects a subset of the directions of its decomposition
-            cut = [e for e in r.events if e["kind"] == "sop" and e["sop"] in ("slice", "narrow", "topk", "index_select", "masked_select") and e["function"].endswith("_CAGradWeighting.forward")
+            cut = [e for e in r.events if e["kind"] == "sop" and e["sop"] in ("slice", "narrow", "topk", "index_select", "masked_select") and _agg.in_weighting(e, W_CAGRAD)
                    and e.get("axis") == "K"]
             ctx.require(not cut, "R4", "CAGrad: the whole factorisation of the Gramian enters the cone programme", "no truncation of the decomposition",
                         f"`{cut[0]['text'] if cut else ''}` keeps only part of the singular directions: for ill-conditioned matrices whose mean lies in a dropped direction the result is no longer "
                         "at distance c·|g0| from the mean (and CAGrad(0) no longer equals the mean)", cut[0]["loc"] if cut else cls.loc(), nontrivial=False)
-            adds = [e for e in r.events if e["kind"] == "op" and e["op"] == "add" and e["function"].endswith("_CAGradWeighting.forward")]
+            adds = [e for e in r.events if e["kind"] == "op" and e["op"] == "add" and _agg.in_weighting(e, W_CAGRAD)]
             step = [e for e in adds if (e.get("left_poly") == minv and "c" in e.get("right_origin", [])) or (e.get("right_poly") == minv and "c" in e.get("left_origin", []))]
             if r.value.deg == "Z":
                 seen_zero = True
@@ -373,10 +376,12 @@ def cagrad(index, ctx, A, by_class):
 
 # ------------------------------------------------------------------------------------------------ MGDA
 def mgda(index, ctx, A, by_class):
-    cls = index.find_class("torchjd.aggregation.mgda._MGDAWeighting")
+    cls = _agg.weighting_of(index, "MGDA")
     if cls is None:
-        raise AnalysisError("anchor vanished: _MGDAWeighting")
-    fi = (cls.lookup("_frank_wolfe_solver") or cls.lookup("forward"))[1]
+        raise AnalysisError("anchor vanished: the weighting class MGDA is built on")
+    # the solver: the method of the class that contains the optimisation loop (forward itself, or the helper it calls)
+    with_loop = [f for f in cls.methods.values() if any(isinstance(n, ast.For) for n in ast.walk(f.node))]
+    fi = with_loop[0] if len(with_loop) == 1 else cls.lookup("forward")[1]
     ctx.analysed(fi.qualname)
     loops_ = [n for n in ast.walk(fi.node) if isinstance(n, ast.For)]
     if len(loops_) != 1:
